@@ -56,7 +56,7 @@ class Boundary(Part):
 
     def enumerate(self, tier: str, shard: int, nshards: int) -> t.Iterable[t.Any]:
         sizes = gens.BOUNDARY_SIZES + ([65535, 65536] if tier == QUICK else gens.BIG_SIZES + [2**16 + 300, 2**20])
-        return msgcheck.boundary_cases(sizes)[shard::nshards]
+        return (msgcheck.boundary_cases(sizes) + msgcheck.magic_cases())[shard::nshards]
 
     def check(self, case: t.Any, ctx: Ctx) -> t.List[Violation]:
         ctx.event(f"size:{case['size']}")
